@@ -268,7 +268,7 @@ Example ex_basins :
   let ds := mkD [1] None 2 100 None [[123]] [] in
   let f := mkF [] [(30, NDs ds)] [(70, ds)] [] []
                [(1, mkB ds false [80] 5); (2, mkB ds true [70] 6);
-                (3, mkB ds true [70; 71] 7); (4, mkB ds true [72] 8)] in
+                (3, mkB ds true [70; 71] 7); (4, mkB ds true [72] 8)] [] in
   let rk := fun k (_ : list Z) => if 0 <=? k then 100 + k else k - 100 in
   let out := f_basins (rtdc_copy (fun _ => true) (fun _ => true) (fun _ => false)
                                  (fun _ => false) rk FAll true true true f) in
